@@ -157,6 +157,7 @@ for cid, vals in cases:
     if g is None or w is None or g != w:
         bad += 1
         print("COQREPLAY mismatch case %s (kind %d): coq=%s ocaml=%s" % (cid, vals[0], (g or [])[:24], (w or [])[:24]))
-print("COQREPLAY %s %d model values in %d cases (per record kind: %s), vm_compute in Coq == extracted OCaml" % (
-    "ok" if not bad else "MISMATCH", total, len(cases), ", ".join("%d:%d" % kv for kv in sorted(kinds.items()))))
+print("COQREPLAY %s %d model values in %d cases (per record kind: %s), vm_compute in Coq %s extracted OCaml" % (
+    "ok" if not bad else "MISMATCH", total, len(cases), ", ".join("%d:%d" % kv for kv in sorted(kinds.items())),
+    "==" if not bad else "!= (%d cases differ)" % bad))
 sys.exit(1 if bad else 0)
